@@ -143,4 +143,36 @@ def fmt_v_sliceInt (xs : List (Option Int)) : Str := fmtSlice (xs.map fmtInt)
 def fmt_s_sliceInt (xs : List (Option Int)) : Str := fmtSlice (xs.map fmtInt)
 def fmt_v_sliceBridgeValidator (ms : List BridgeValidator) : Str := fmtSlice (ms.map fmtMember)
 
+/-! ## character classes of `ValidateBasic` (used by the generated `validGen`) -/
+
+def isHexChar (c : Char) : Bool := c.isDigit || ('a' ≤ c && c ≤ 'f') || ('A' ≤ c && c ≤ 'F')
+
+/-- `hex.DecodeString(s)` succeeds (the empty string does) -/
+def isHexData (s : Str) : Bool := s.length % 2 == 0 && s.all isHexChar
+
+/-- base58 alphabet (Bitcoin/Tron): alphanumeric without `0 O I l` -/
+def isBase58Char (c : Char) : Bool := c.isAlphanum && c != '0' && c != 'O' && c != 'I' && c != 'l'
+
+/-- `^0x[0-9a-fA-F]{40}$`, length 42 (the EIP-55 checksum is not modelled) -/
+def isEthAddr (s : Str) : Bool := s.length == 42 && s.take 2 == ['0', 'x'] && (s.drop 2).all isHexChar
+
+/-- 34 base58 characters (the base58check checksum is not modelled) -/
+def isTronAddr (s : Str) : Bool := s.length == 34 && s.all isBase58Char
+
+def isExtAddr : AddrKind → Str → Bool
+  | .eth, s => isEthAddr s
+  | .tron, s => isTronAddr s
+  | .other, _ => false
+
+/-- superset of the strings `sdk.AccAddressFromBech32` accepts: non-empty, alphanumeric -/
+def isBech32ish (s : Str) : Bool := !s.isEmpty && s.all Char.isAlphanum
+
+/-- non-nil and non-negative `sdkmath.Int` -/
+def isNonNeg : Option Int → Bool
+  | some (Int.ofNat _) => true
+  | _ => false
+
+/-- representation invariant of the model: a Go string is a byte string, one `Char` per byte -/
+def isBytes (s : Str) : Bool := s.all fun c => c.toNat < 256
+
 end FxVerif.Model.C03
